@@ -4,3 +4,4 @@ import TrucModel.Model.Builder
 import TrucModel.Model.Definition
 import TrucModel.Model.Replay
 import TrucModel.Model.VecConvert
+import TrucModel.Model.Gen
